@@ -375,6 +375,9 @@ def check(model, rep):
         got = ev_.stores.get('self.TAA', ('unk', 'no store'))
         ok = got[0] == 'lst' and len(got[1]) == 6 and tuple(got[1][:3]) == tuple(('el', (k,)) for k in range(3))
         rep.ob('R15.5', f6, 'six-vector rows 0..2 = entries 0..2 of the argument (rpy=%s)' % flag, ok, 'the six-vector becomes %s' % eshow(got))
+    from .c04 import payload_fresh
+    payload_fresh(rep, 'R15.5', tmc, 'node poses built as copies of one template and then moved all read the last coordinates written: the test answers '
+                  'for another segment')
     reads = [norm_text(r.value) for r in ast.walk(gi.node) if isinstance(r, ast.Return) and r.value is not None]
     rep.ob('R15.5', gi, 'indexing reads the six-vector', bool(reads) and all(t.startswith('self.TAA[') for t in reads), 'tm.__getitem__ returns %s' % reads)
     writers = set()
